@@ -5,6 +5,7 @@ import itertools
 import random
 
 import core
+import solvegen
 from core import cz, clist
 
 PROP_FILE = "Prop_C15.v"
@@ -13,6 +14,131 @@ From PV Require Import Rand.Select Rand.SelectCheck.
 Import ListNotations.
 Open Scope Z_scope.
 """
+
+
+class DistGen(solvegen.Gen):
+    """one class with 2-4 small scalars, a dist on a random one, a window lo <= a <= hi and / or a relation to another field"""
+
+    def fill_blocks(self, softs):
+        rnd = self.rnd
+        c = self.classes[0]
+        sc = {"classes": self.classes, "enums": self.enums}
+        if not any(f["kind"] == "scalar" for f in c["fields"]):
+            c["fields"].append({"name": "f%d" % self.nfield, "kind": "scalar", "w": 3, "sg": False, "rand": True})
+            self.nfield += 1
+        self.fs = [(list(p), f) for p, f in solvegen.leaves_of(sc, c["name"])]
+        d = self.dist_stmt(c)
+        path = d[1][1]
+        f = next(x for x in c["fields"] if x["name"] == path[0])
+        lo, hi = solvegen.type_range(f["w"], f["sg"])
+        stmts = [d]
+        r = rnd.random()
+        if r < 0.6:
+            a = rnd.randint(lo, hi)
+            b = rnd.randint(a, hi)
+            stmts += [["expr", ["bin", "Ge", ["f", path], ["lit", a]]], ["expr", ["bin", "Le", ["f", path], ["lit", b]]]]
+        if rnd.random() < 0.4:
+            stmts.append(["expr", self.relation(1)])
+        rnd.shuffle(stmts)
+        c["blocks"] = [{"name": "c0", "stmts": stmts}]
+
+
+def binom_tail(n, k, p):
+    """exact two-sided tail: P(|X - np| >= |k - np|) for X ~ Bin(n, p), as a Fraction-free float sum of exact terms"""
+    from math import comb
+    if p <= 0:
+        return 1.0 if k == 0 else 0.0
+    if p >= 1:
+        return 1.0 if k == n else 0.0
+    d = abs(k - n * p)
+    tot = 0.0
+    for x in range(n + 1):
+        if abs(x - n * p) >= d - 1e-12:
+            tot += comb(n, x) * (p ** x) * ((1 - p) ** (n - x))
+    return min(1.0, tot)
+
+
+def dist_streams(ctx):
+    """the dist-constraint half: (1) per call, the rewrite judged through the solver harness; (2) frequencies of an otherwise
+    unconstrained dist against weight / total with exact binomial tails"""
+    from props import solve_common
+    rnd = random.Random("C15-dist-%d" % ctx.seed)
+    n = 80 if ctx.quick() else 2500
+    scs = []
+    for _ in range(n):
+        g = DistGen(random.Random(rnd.random()), small=True)
+        g.dists = False            # (the dist statement is placed by DistGen.fill_blocks itself)
+        scs.append(g.scenario(ncalls=3))
+    results, crashed = solve_common.evaluate(ctx, scs, "c15d")
+    st = {"evaluations": 0, "outcomes": {}}
+    for si, o in crashed:
+        ctx.tie_broken.append("implementation worker crashed: %s" % str(o)[:400])
+    for si, oi, code, res in results:
+        st["evaluations"] += 1
+        st["outcomes"][res["outcome"]] = st["outcomes"].get(res["outcome"], 0) + 1
+        if code is None:
+            ctx.tie_broken.append("Coq evaluation failed for dist scenario %d call %d" % (si, oi))
+        elif code & (2 | 8):
+            core.add_violation(ctx, "a call with a dist constraint returned a value outside the listed non-zero-weight entries (or "
+                                    "violating the accompanying constraints), or its outcome contradicts satisfiability (bits %d; outcome %s, "
+                                    "values %s)" % (code & 10, res["outcome"], res["values"]),
+                               {"scenario": solve_common.brief(scs[si], oi), "observed": {k: res[k] for k in ("outcome", "err", "before", "values")},
+                                "code": code, "model_terms_agree": not (code & 1)})
+        elif code & 1:
+            ctx.tie_broken.append("model's rewrite of dist != recorded solver terms in scenario %r" % (solve_common.brief(scs[si], oi),))
+    # ---- frequencies
+    ncalls = 400 if ctx.quick() else 1500
+    fcases = []
+    for k in range(6 if ctx.quick() else 30):
+        r = random.Random("C15-freq-%d-%d" % (ctx.seed, k))
+        ents, used = [], set()
+        for _ in range(r.randint(2, 4)):
+            a = r.choice([x for x in range(0, 14) if x not in used and x + 1 not in used] or [15])
+            if r.random() < 0.5 and a + 1 not in used:
+                it = [a, a + 1]
+                used |= {a, a + 1}
+            else:
+                it = a
+                used.add(a)
+            ents.append([it, r.choice([0, 1, 2, 3, 6])])
+        if all(e[1] == 0 for e in ents):
+            ents[0][1] = 2
+        cls = {"name": "K0", "fields": [{"name": "a", "kind": "scalar", "w": 4, "sg": False, "rand": True},
+                                        {"name": "b", "kind": "scalar", "w": 3, "sg": False, "rand": True}],
+               "blocks": [{"name": "c0", "stmts": [["dist", ["f", ["a"]], ents]]}], "pre_randomize": [], "post_randomize": []}
+        fcases.append({"enums": {}, "classes": [cls], "root_cls": "K0",
+                       "ops": [{"op": "new", "var": "o", "cls": "K0"}, {"op": "seed", "var": "o", "seed": 1000 + k}]
+                       + [{"op": "randomize", "var": "o", "inline": None} for _ in range(ncalls)]})
+    fobs = core.run_impl_parallel(ctx, "solve_impl.py", fcases)
+    alpha = 1e-7
+    ntests = 0
+    for c, o in zip(fcases, fobs):
+        if o.get("_crash") or "crash" in o:
+            ctx.tie_broken.append("frequency worker crashed: %s" % str(o)[:300])
+            continue
+        vals = [r["values"][0] for op, r in zip(c["ops"], o["ops"]) if op["op"] == "randomize" and r["outcome"] == "ok"]
+        ents = c["classes"][0]["blocks"][0]["stmts"][0][2]
+        total = sum(w for _, w in ents)
+        for it, w in ents:
+            members = list(range(it[0], it[1] + 1)) if isinstance(it, list) else [it]
+            k_ent = sum(1 for v in vals if v in members)
+            ntests += 1
+            p = w / total
+            if w == 0 and k_ent > 0:
+                core.add_violation(ctx, "zero-weight entry %r produced %d times" % (it, k_ent), {"case": c["classes"], "counts": k_ent})
+            elif binom_tail(len(vals), k_ent, p) < alpha:
+                core.add_violation(ctx, "entry %r of weights %r chosen %d times in %d calls: exact two-sided binomial tail %.3g for p = %d/%d"
+                                   % (it, ents, k_ent, len(vals), binom_tail(len(vals), k_ent, p), w, total), {"case": c["classes"], "values": vals[:200]})
+            if w > 0 and len(members) > 1:
+                for m in members:
+                    ntests += 1
+                    km = sum(1 for v in vals if v == m)
+                    if binom_tail(len(vals), km, p / len(members)) < alpha:
+                        core.add_violation(ctx, "value %d of range entry %r produced %d times in %d calls (expected share %d/%d/%d)"
+                                           % (m, it, km, len(vals), w, total, len(members)), {"case": c["classes"], "values": vals[:200]})
+        if any(v not in {m for it, w in ents if w > 0 for m in (range(it[0], it[1] + 1) if isinstance(it, list) else [it])} for v in vals):
+            core.add_violation(ctx, "an unlisted or zero-weight value was produced by an otherwise unconstrained dist", {"case": c["classes"], "values": vals[:200]})
+    return st, len(fcases) * ncalls, ntests
 
 
 def run(ctx):
@@ -64,8 +190,18 @@ def run(ctx):
                 ctx.tie_broken.append("model != implementation for weights %r" % (c["ws"],))
             if not (o.get("_crash") or "crash" in o) and o["draw_bounds"] != [[1, sum(c["ws"])]]:
                 core.add_violation(ctx, "the draw is not randint(1, total): %r" % (o["draw_bounds"],), {"case": c, "observed": o})
+    dstats, fcalls, ftests = dist_streams(ctx)
     ctx.coverage.update({
-        "evaluations": draws,
+        "dist_constraint_stream": {"evaluations": dstats["evaluations"], "outcomes": dstats["outcomes"],
+                                   "rule": "classes with 2-4 small scalars, a dist on a random one (1-4 entries: values and ranges inside and "
+                                           "outside the type, overlapping entries, zero weights, a weight held in a non-random field), a window "
+                                           "lo <= a <= hi and / or a relation to another field; per call the rewritten dist (Rand/Dist.v) is "
+                                           "compared with the solver transcript and values / outcome are judged by enumeration in Coq"},
+        "dist_frequency_stream": {"calls": fcalls, "binomial_tests": ftests,
+                                  "rule": "an otherwise unconstrained 4-bit field with 2-4 disjoint entries; per entry and per value of a "
+                                          "range the count over the calls is tested against weight / total (and / range size) with the exact "
+                                          "two-sided binomial tail at 1e-7; zero-weight and unlisted values must never appear"},
+        "evaluations": draws + dstats["evaluations"],
         "distinct_nontrivial": len({tuple(c["ws"]) for c in cases if 0 in c["ws"] or len(set(c["ws"])) > 1}),
         "rule": "every weight vector of length <= %d with entries 0..%d (not all zero) plus seeded random longer vectors; for each "
                 "vector EVERY value the draw randint(1, total) can return is substituted and the selected index of distselect and "
@@ -78,6 +214,6 @@ def run(ctx):
     ctx.assumptions += [
         "the draw random.randint(1, total) is uniform (CPython's generator is modelled, not verified): the theorems count draws",
         "weights are non-negative integers with a positive sum (the code raises otherwise)",
-        "this run covers the procedural helpers; the dist-constraint half (rewrite to in + zero-weight exclusions, target-range "
-        "selection) is covered by the theorems on next_target_at and by the solver harness when dist statements are generated",
+        "frequencies: the draws of one object with a fixed RandState are deterministic; the binomial tails treat them as independent "
+        "uniform draws (CPython's generator is modelled, not verified); a tail below 1e-7 is reported",
     ]
